@@ -19,6 +19,7 @@ import (
 	"sort"
 	"strings"
 	"sync"
+	"sync/atomic"
 	"testing"
 	"time"
 
@@ -88,6 +89,19 @@ func vfGenGatherCfg(rng interface{ IntN(int) int }) *vfGatherCfg {
 		}
 		for _, ip := range ifc.IPs {
 			if rng.IntN(6) == 0 {
+				c.IPDeny[ip] = true
+			}
+		}
+	}
+	// sometimes the filters accept nothing at all (interface absent / down, pinned address not assigned)
+	switch rng.IntN(12) {
+	case 0:
+		for _, ifc := range c.Ifaces {
+			c.IfaceDeny[ifc.Name] = true
+		}
+	case 1:
+		for _, ifc := range c.Ifaces {
+			for _, ip := range ifc.IPs {
 				c.IPDeny[ip] = true
 			}
 		}
@@ -404,6 +418,11 @@ func vfC18Run(e *vfEnv, r *vfResult, idx int) { //nolint:cyclop,maintidx
 			continue
 		}
 		ip := vc.local.Addr()
+		if ip.IsUnspecified() && (len(c.IfaceDeny) > 0 || len(c.IPDeny) > 0) {
+			// with an interface or IP filter configured the agent binds per accepted address; a wildcard socket would
+			// send from addresses the filters excluded
+			r.violation("wildcard-socket-despite-filters", fmt.Sprintf("the agent opened a socket on %s although an interface / IP filter is configured", vc.local), wit)
+		}
 		if !ip.IsUnspecified() && !eligSet[ip] {
 			r.violation("socket-on-excluded-address", fmt.Sprintf("the agent opened a socket on %s, an address excluded by the configuration", vc.local), wit)
 		}
@@ -581,6 +600,150 @@ func vfC18ActiveTCP(e *vfEnv, r *vfResult, idx int) { //nolint:cyclop
 	r.distinct(fmt.Sprintf("activetcp/types=%v/nts=%v/disabled=%v/gathered=%v/active=%v", cts, nts, disableActive, gathered, active > 0))
 }
 
+// vfC18RestartHeld: Restart while a cycle is held in Gathering by an unanswered STUN query, followed at once by a fresh
+// cycle.  The cancelled cycle contributes nothing: no nil candidate, no candidate after the Restart; the fresh cycle
+// emits its candidates (all with the new ufrag) and then exactly one nil, and ends in Complete.
+func vfC18RestartHeld(e *vfEnv, r *vfResult, idx int) { //nolint:cyclop
+	rng := e.rng(idx, "restartheld")
+	sw := newVfSwitch()
+	srv, err := newVfStunServer(sw, "10.255.0.1", 3478)
+	if err != nil {
+		r.inconclusive(1)
+
+		return
+	}
+	nIP := 1 + rng.IntN(3)
+	ips := []string{}
+	for i := 0; i < nIP; i++ {
+		ips = append(ips, fmt.Sprintf("10.0.%d.1", i))
+	}
+	uri, _ := stun.ParseURI("stun:10.255.0.1:3478")
+	stunTO := 3 * time.Second
+	a, err := NewAgent(&AgentConfig{
+		Net: vfSimpleNet(sw, "A", ips...), NetworkTypes: []NetworkType{NetworkTypeUDP4},
+		CandidateTypes: []CandidateType{CandidateTypeHost, CandidateTypeServerReflexive}, Urls: []*stun.URI{uri},
+		MulticastDNSMode: MulticastDNSModeDisabled, LoggerFactory: vfQuietLogger(), STUNGatherTimeout: &stunTO,
+	})
+	if err != nil {
+		r.inconclusive(1)
+
+		return
+	}
+	defer a.Close() //nolint:errcheck
+	type ev struct {
+		nilCand bool
+		ufrag   string
+		gen     int32
+	}
+	var mu sync.Mutex
+	var log []ev
+	var gen atomic.Int32
+	_ = a.OnCandidate(func(c Candidate) {
+		x := ev{nilCand: c == nil, gen: gen.Load()}
+		if c != nil {
+			if ext, ok := c.GetExtension("ufrag"); ok {
+				x.ufrag = ext.Value
+			}
+		}
+		mu.Lock()
+		log = append(log, x)
+		mu.Unlock()
+	})
+	if err := a.GatherCandidates(); err != nil {
+		r.inconclusive(1)
+
+		return
+	}
+	// the cycle is surely in Gathering once its STUN query is on the wire; it cannot complete (nobody answers)
+	var reqs []*vfDgram
+	for dl := time.Now().Add(3 * time.Second); len(reqs) == 0 && time.Now().Before(dl); time.Sleep(20 * time.Microsecond) {
+		reqs = append(reqs, srv.pump()...)
+	}
+	if len(reqs) == 0 {
+		r.inconclusive(1)
+
+		return
+	}
+	time.Sleep(time.Duration(rng.IntN(300)) * time.Microsecond)
+	_ = vfAwaitNotifiers(a)
+	if err := a.Restart("", ""); err != nil {
+		r.inconclusive(1)
+
+		return
+	}
+	gen.Store(1)
+	newUfrag, _, _ := a.GetLocalUserCredentials()
+	if st, _ := a.GetGatheringState(); st != GatheringStateNew {
+		r.violation("restart-gathering-state", fmt.Sprintf("gathering state %s right after Restart", st), map[string]any{"idx": idx})
+	}
+	fresh := rng.IntN(4) != 0
+	if fresh {
+		if err := a.GatherCandidates(); err != nil {
+			r.violation("fresh-cycle-refused-after-restart", fmt.Sprintf("GatherCandidates after Restart: %v", err), map[string]any{"idx": idx})
+
+			return
+		}
+		// answer the fresh cycle's queries (late answers to the cancelled cycle's queries go out as well)
+		for dl := time.Now().Add(5 * time.Second); time.Now().Before(dl); time.Sleep(50 * time.Microsecond) {
+			for _, q := range srv.pump() {
+				_, _ = srv.reply(q, netip.MustParseAddrPort("198.51.100.9:6000"))
+			}
+			if st, _ := a.GetGatheringState(); st == GatheringStateComplete {
+				break
+			}
+		}
+	} else {
+		time.Sleep(2 * time.Millisecond)
+	}
+	_ = vfAwaitNotifiers(a)
+	r.eval(1)
+	mu.Lock()
+	evs := append([]ev{}, log...)
+	mu.Unlock()
+	nils, afterNil, wrongUfrag, oldAfterRestart := 0, 0, 0, 0
+	seenNil := false
+	for _, x := range evs {
+		if x.gen == 0 {
+			if x.nilCand {
+				nils += 100 // a nil delivered before the Restart: the held cycle cannot have completed
+			}
+
+			continue
+		}
+		switch {
+		case x.nilCand:
+			nils++
+			seenNil = true
+		case seenNil:
+			afterNil++
+		}
+		if !x.nilCand && x.ufrag != newUfrag {
+			wrongUfrag++
+		}
+		if !x.nilCand && !fresh {
+			oldAfterRestart++
+		}
+	}
+	wit := map[string]any{"idx": idx, "addresses": nIP, "fresh_cycle": fresh, "events": fmt.Sprintf("%+v", evs), "new_ufrag": newUfrag}
+	wantNils := 0
+	if fresh {
+		wantNils = 1
+	}
+	if nils != wantNils {
+		r.violation("gather-nil-count", fmt.Sprintf("history %d: Restart cancelled a cycle held in Gathering (fresh cycle afterwards: %v): %d nil candidate event(s), want %d", idx, fresh, nils, wantNils), wit)
+	}
+	if afterNil > 0 {
+		r.violation("candidate-after-nil", fmt.Sprintf("history %d: %d candidate(s) were delivered after the nil candidate", idx, afterNil), wit)
+	}
+	if wrongUfrag > 0 || oldAfterRestart > 0 {
+		r.violation("cancelled-cycle-candidate-after-restart", fmt.Sprintf("history %d: after Restart %d candidate(s) not carrying the new ufrag / %d candidate(s) without a fresh cycle were delivered", idx, wrongUfrag, oldAfterRestart), wit)
+	}
+	if st, _ := a.GetGatheringState(); fresh && st != GatheringStateComplete {
+		r.violation("fresh-cycle-not-complete", fmt.Sprintf("history %d: the fresh cycle after Restart ended in state %s", idx, st), wit)
+	}
+	r.distinct(fmt.Sprintf("restartheld/ips%d/fresh=%v", nIP, fresh))
+}
+
 func TestVerifC18(t *testing.T) {
 	vfRun(t, "C18", func(e *vfEnv, r *vfResult) {
 		n := e.n(4000, 200000)
@@ -592,6 +755,9 @@ func TestVerifC18(t *testing.T) {
 		}
 		for i := 0; i < e.n(150, 6000); i++ {
 			vfC18ActiveTCP(e, r, i)
+		}
+		for i := 0; i < e.n(150, 6000); i++ {
+			vfC18RestartHeld(e, r, i)
 		}
 		// Restart racing a running cycle (old results must not be mixed into the new generation)
 		m := e.n(300, 10000)
